@@ -360,7 +360,7 @@ EmitNamedGuid ==
     /\ AtDecl /\ Ins.arr = "none" /\ Ins.ty = "NamedGuid"
     /\ \E c \in Pick(2) :
          IF c = 1 THEN Emit(Rep(0, 8), Bump(stack), scopes)
-         ELSE Emit(GuidPat(1 + (K % 5)) \o CStringOf(StrPat(K)), Bump(stack), scopes)
+         ELSE Emit(GuidPat(1 + (K % 5)) \o CStringOf(StrPat(K % 5)), Bump(stack), scopes)
 
 EmitVarItemRandomProp ==
     /\ AtDecl /\ Ins.arr = "none" /\ Ins.ty = "VariableItemRandomProperty"
@@ -539,13 +539,22 @@ SkipIf ==
     /\ stack' = Bump(stack)
     /\ UNCHANGED <<root, prof, scopes, out, fi, regions, sizepos, sizew, phase, note, ev>>
 
+(* A count field declared BEFORE the optional block whose array is declared IN it counts the     *)
+(* elements that are present: in a canonical encoding it is 0 when the block is absent (the      *)
+(* documents do not say; any other value could not be told from a present block by the count,    *)
+(* and no value type can carry it).  So the block may be absent only if those counts are 0.      *)
+OuterCountsZero(b) ==
+    \A k \in 1..Len(Blks[b].ins) :
+        LET j == Blks[b].ins[k] IN
+        (j.op = "decl" /\ j.arr = "var" /\ j.cf \in DOMAIN Scope) => Scope[j.cf].n = 0
+
 OptionalPresent ==
-    /\ AtIns /\ Ins.op = "opt" /\ 1 \in Pick(2)
+    /\ AtIns /\ Ins.op = "opt" /\ (1 \in Pick(2) \/ ~OuterCountsZero(Ins.blk))
     /\ stack' = Push(Bump(stack), BlkFrame(Ins.blk, FALSE))
     /\ UNCHANGED <<root, prof, scopes, out, fi, regions, sizepos, sizew, phase, note, ev>>
 
 OptionalAbsent ==
-    /\ AtIns /\ Ins.op = "opt" /\ 2 \in Pick(2)
+    /\ AtIns /\ Ins.op = "opt" /\ 2 \in Pick(2) /\ OuterCountsZero(Ins.blk)
     /\ stack' = Bump(stack)
     /\ UNCHANGED <<root, prof, scopes, out, fi, regions, sizepos, sizew, phase, note, ev>>
 
